@@ -316,7 +316,7 @@ def check(sc):
     out = base_outcome(tr, extra_sig=[state["n"], sc["network"]["violation_tolerance"], sc["network"]["relative_tolerance"]])
     pre = box["out"]
     out.viol = pre.viol
-    out.probes = pre.probes
+    out.probes = dict(out.probes, **pre.probes)
     out.nontrivial = pre.nontrivial
     out.inconclusive = pre.inconclusive
     cons = cons_of(sc)
